@@ -47,3 +47,8 @@ func (ab *AccessBarrier) VerifQueue() []uint64 {
 	}
 	return out
 }
+
+// VerifSession returns the current barrier session.
+func (ab *AccessBarrier) VerifSession() *BarrierSession {
+	return (*BarrierSession)(ab.session)
+}
